@@ -39,10 +39,31 @@ let read_ops () =
            NewNode (KDec (a <> 0, no <> 0), id)
     | 2 -> let nm = next_nat () in let id = next_opt () in NewNode (KRef nm, id)
     | 3 -> let s = next_nat () in let t = next_nat () in AddT (s, t)
+    | 4 -> AddT (O, O) (* placeholder, see read_prog *)
     | _ -> failwith "bad op")
 
+(* a program: API ops interleaved with GEN (= exhaust generate_paths() on the root) *)
+type pop = POp of op | PGen
+let read_prog () =
+  let n = next () in
+  List.init n (fun _ ->
+    match next () with
+    | 0 -> let v = next () in let id = next_opt () in POp (NewNode (KLeaf (v <> 0), id))
+    | 1 -> let a = next () in let no = next () in let id = next_opt () in
+           POp (NewNode (KDec (a <> 0, no <> 0), id))
+    | 2 -> let nm = next_nat () in let id = next_opt () in POp (NewNode (KRef nm, id))
+    | 3 -> let s = next_nat () in let t = next_nat () in POp (AddT (s, t))
+    | 4 -> PGen
+    | _ -> failwith "bad op")
+
+let show_ret = function None -> "N" | Some n -> let k = int_of_nat n in if k mod 3 = 2 then "N" else string_of_int k
+let show_vtrace tr = String.concat "." (List.map (fun (n, fr) ->
+  string_of_int (int_of_nat n) ^ "<" ^ (match fr with None -> "-" | Some m -> string_of_int (int_of_nat m))) tr)
+let show_execv (tr, v) = show_vtrace tr ^ ">" ^ show_ret v
+
 let read_variant () =
-  let a = next () in let b = next () in { fix_leaf = (a <> 0); fix_af = (b <> 0) }
+  let a = next () in let b = next () in let c = next () in
+  { fix_leaf = (a <> 0); fix_af = (b <> 0); fix_reset = (c <> 0) }
 
 let dump_annot g (lr : amap) (lv : amap) =
   let b = Buffer.create 256 in
@@ -63,25 +84,31 @@ let run_g () =
   let v = read_variant () in
   let fuel = next_nat () in
   let root = next_nat () in
-  let g = build (read_ops ()) in
+  let prog = read_prog () in
+  let (g, lr0, lv0) = List.fold_left (fun (g, lr, lv) o ->
+      match o with
+      | POp o -> (apply_op g o, lr, lv)
+      | PGen -> (match generate_paths v fuel g root lr lv with
+                 | Ok (a, _) -> (g, a.a_lr, a.a_lv)
+                 | _ -> (g, lr, lv))) ([], aempty, aempty) prog in
   let npaths = next () in
   let xpaths = List.init npaths (fun _ -> next_list ()) in
   let b = Buffer.create 1024 in
   Buffer.add_string b (Printf.sprintf "wf=%d|prod=%d|acyc=%d|"
     (if wfb g root then 1 else 0) (if productiveb g then 1 else 0) (if acyclicb g then 1 else 0));
   Buffer.add_string b ("items=" ^ show_res ints (items fuel g root));
-  (match generate_paths v fuel g root aempty aempty with
+  (match generate_paths v fuel g root lr0 lv0 with
    | Ok (a, (es, st)) when es <> [] || st = Ok () ->
      Buffer.add_string b ("|valid=" ^ ints a.a_valid ^ "|invalid=" ^ ints a.a_invalid);
      Buffer.add_string b ("|annot=" ^ dump_annot g a.a_lr a.a_lv);
      Buffer.add_string b ("|entries=" ^ String.concat ";" (List.map show_entry es));
      Buffer.add_string b ("|status=" ^ show_res (fun () -> "") st);
      Buffer.add_string b ("|exec=" ^ String.concat ";"
-        (List.map (fun e -> show_res ints (execute fuel g root e.epath)) es))
+        (List.map (fun e -> show_res show_execv (executev fuel g root e.epath)) es))
    | Ok (_, (_, st)) -> Buffer.add_string b ("|fail=" ^ show_res (fun () -> "") st)
    | r -> Buffer.add_string b ("|fail=" ^ show_res (fun _ -> "") r));
   Buffer.add_string b ("|xexec=" ^ String.concat ";"
-        (List.map (fun p -> show_res ints (execute fuel g root p)) xpaths));
+        (List.map (fun p -> show_res show_execv (executev fuel g root p)) xpaths));
   print_endline (Buffer.contents b)
 
 (* ---- strings: token S97-98-99 (code points), S alone = empty ---- *)
